@@ -60,7 +60,10 @@ fn dispatch_inner(prop: &str, ctx: Ctx, replay: Option<&str>) -> i32 {
     match prop {
         "C01" => {
             crate::run::start_watchdog(std::time::Duration::from_secs(ctx.tier.pick(180, 1800)), None);
-            let rep = c01::run(ctx);
+            let mut rep = c01::run(ctx);
+            if ctx.tier == crate::report::Tier::Thorough && std::env::var("VERIF_SKIP_MIRI").is_err() {
+                miri_step(&mut rep, "c01");
+            }
             finish(rep, c01::meta(), ctx.tier, ctx.seed, started)
         }
         "C04" => {
@@ -243,6 +246,7 @@ pub fn replay_file(prop: &str, path: &str) -> i32 {
 /// a missing toolchain or a timeout is recorded as a note, never as a verdict.
 fn miri_step(rep: &mut Report, what: &str) {
     let harness = crate::report::verif_root().join("harness");
+    let class = if what == "c01" { "mux" } else { "codec" };
     let started = Instant::now();
     let out = std::process::Command::new("timeout")
         .arg("2400")
@@ -260,13 +264,13 @@ fn miri_step(rep: &mut Report, what: &str) {
             let result = stdout.lines().find(|l| l.starts_with("MIRI-RESULT")).map(|l| l.to_string());
             if stderr.contains("Undefined Behavior") || stderr.contains("error: unsupported operation") && result.is_none() && stderr.contains("Undefined") {
                 let first = stderr.lines().find(|l| l.contains("Undefined Behavior")).unwrap_or("").to_string();
-                rep.violate("codec", "miri", "undefined_behaviour", format!("Miri reported: {first}"), serde_json::json!({"kind": "miri", "what": what, "stderr_tail": stderr.lines().rev().take(25).collect::<Vec<_>>()}));
+                rep.violate(class, "miri", "undefined_behaviour", format!("Miri reported: {first}"), serde_json::json!({"kind": "miri", "what": what, "stderr_tail": stderr.lines().rev().take(25).collect::<Vec<_>>()}));
             } else if let Some(r) = result {
                 rep.add("miri_runs", 1);
                 rep.note(format!("Miri replay ({:.0} s): {r} — no undefined behaviour reported on this reduced workload (not a memory-safety claim)", started.elapsed().as_secs_f64()));
                 if stdout.lines().any(|l| l.starts_with("MIRI-VIOLATION")) {
                     for l in stdout.lines().filter(|l| l.starts_with("MIRI-VIOLATION")).take(3) {
-                        rep.violate("codec", "miri", "oracle_mismatch_under_miri", l.to_string(), serde_json::json!({"kind": "miri", "what": what}));
+                        rep.violate(class, "miri", "oracle_mismatch_under_miri", l.to_string(), serde_json::json!({"kind": "miri", "what": what}));
                     }
                 }
             } else {
@@ -295,9 +299,15 @@ pub fn miri_main(what: &str) -> i32 {
             use crate::mempipe::{Frag, PipeCfg};
             let mut bad = 0;
             let mut bytes = 0u64;
+            let mut cases = 0;
             let frag = PipeCfg { capacity: 300, write_frag: Frag::Random(200), read_frag: Frag::Pool(vec![1, 7, 8, 100]), pending_prob: 0.1, seed: 3 };
             for (k, sizes) in [vec![10usize, 0, 300], vec![66000], vec![7, 8, 1]].into_iter().enumerate() {
                 for pc in [PipeCfg::plain(), frag.clone()] {
+                    if sizes[0] > 60_000 && pc.capacity == 300 {
+                        // the interpreter needs minutes for 66 000 bytes in 200-byte writes; the large chunk runs on the plain pipe only
+                        continue;
+                    }
+                    cases += 1;
                     let d = |w: u8, r: u8| mux::DirPlan { chunks: sizes.clone(), write_api: w, read_api: r, read_bufs: vec![50, 4096] };
                     let case = mux::MuxCase { seed: k as u64, streams: vec![(d(0, 0), d(1, 1)), (d(2, 2), d(0, 0))], c2s: pc.clone(), s2c: pc, scheme: None, sched_p: 0.3, inline_first: true, locator: (0, k), concurrent_opens: false };
                     let res = mux::run_case(&case);
@@ -308,7 +318,7 @@ pub fn miri_main(what: &str) -> i32 {
                     }
                 }
             }
-            println!("MIRI-RESULT c01 cases=6 bytes_compared={bytes} violations={bad}");
+            println!("MIRI-RESULT c01 cases={cases} bytes_compared={bytes} violations={bad}");
             if bad == 0 { 0 } else { 1 }
         }
         _ => 2,
